@@ -77,6 +77,19 @@ func propGen(prop, tier string, idx int) GenOpts {
 			o.WFault = [4]int{3, 2, 3, 0}
 			o.PMulti, o.PResult = 250, 300
 		}
+		if idx%8 == 7 {
+			// ... asked for again and again: one client, few registrations with several results,
+			// nil-result faults only, many resolutions on few handles
+			conc(1, 1)
+			o.MaxRegs = 2
+			o.WLife = [3]int{0, 8, 1}
+			o.PMulti, o.PResult, o.PVoid = 300, 600, 0
+			o.WFault = [4]int{0, 0, 5, 0}
+			o.FaultBudget = [4]int{0, 6, 3, 0}
+			o.MaxOps = 12
+			o.WOp = [8]int{0, 16, 2, 1, 0, 0, 0, 0}
+			o.PFocus = 0
+		}
 	case "C03":
 		o.WLife = [3]int{3, 3, 6}
 		o.PMulti, o.PResult = 150, 150
